@@ -36,6 +36,17 @@ SCENARIOS = [
     [[A, U, S, R(1)], [U, A, U], [S, R(1), U]],          # updaters dying with the lock held: the others carry on
 ]
 
+# small scenarios whose schedules (every choice of the controller among the threads parked at a schedule point of the
+# REAL GuestMemoryAtomic) are enumerated depth first instead of sampled
+DFS_SCENARIOS = [
+    [[S], [U]],
+    [[U], [U]],
+    [[S, R(1)], [U]],
+    [[S], [A, U]],
+    [[S, I(1), R(1)], [U], [U]],
+    [[S, S, R(1), R(2)], [U, U]],
+]
+
 
 def run(ctx):
     r = tlc_must_pass(TLA, os.path.join(SPEC, "MC_AtomicMap.cfg"), "mc_amap", workers=8, timeout=900)
@@ -48,6 +59,8 @@ def run(ctx):
     ctx.cov["exhaustive"] = True
     per = 60 if ctx.tier == "quick" else 1500
     prog = [{"op": "scenario", "a": {"threads": th, "schedules": per, "seed": ctx.seed + i}} for i, th in enumerate(SCENARIOS)]
+    cap = 250 if ctx.tier == "quick" else 6000
+    prog += [{"op": "scenario", "a": {"threads": th, "schedules": cap, "exhaustive": True}} for th in DFS_SCENARIOS]
     events = run_harness("amap", prog, os.path.join(WORK, "amap.ev.ndjson"), timeout=3000, ctx=ctx, one_event_per_line=False)
     nsched = sum(1 for e in events if e["op"] == "init")
     blocked = 0
@@ -64,14 +77,29 @@ def run(ctx):
     ctx.cov["schedules_run"] = nsched
     distinct = len(set(json.dumps([(e["a"]["t"], e["a"]["kind"]) for e in h[1:-1]]) for h in split_events(events)))
     ctx.cov["distinct_schedules"] = distinct
+    # the enumerated scenarios: how many schedules each needed, and whether the enumeration ran to completion
+    dfs = {}
+    for h in split_events(events):
+        if h[0]["a"].get("exhaustive"):
+            key = json.dumps(h[0]["a"]["threads"])
+            d = dfs.setdefault(key, {"threads": h[0]["a"]["threads"], "schedules": 0, "complete": False, "diverged": 0})
+            d["schedules"] += 1
+            d["complete"] = d["complete"] or bool(h[-1]["a"].get("dfs_complete"))
+            d["diverged"] = max(d["diverged"], h[-1]["a"].get("diverged", 0))
+    ctx.cov["enumerated_scenarios"] = [dict(v, threads=json.dumps(v["threads"])) for v in dfs.values()]
+    ctx.cov["enumerated_scenarios_complete"] = sum(1 for v in dfs.values() if v["complete"])
+    for v in dfs.values():
+        log("[amap] enumerated %s: %d schedules, complete=%s, diverged=%d" % (json.dumps(v["threads"]), v["schedules"], v["complete"], v["diverged"]))
     first = split_events(events)[1]
     ctx.sample({"kind": "one recorded schedule of readers and updaters on the real GuestMemoryAtomic",
                 "threads": first[0]["a"]["threads"], "events": [e["a"] for e in first[1:40]]})
     log("[amap] %d scenarios, %d schedules (%d distinct), %d events" % (len(SCENARIOS), nsched, distinct, len(events)))
     ctx.assumptions += [
         "arc-swap's load/store and std's Mutex are trusted to be linearizable; schedule points bracket them",
-        "schedules are a seeded random sample (a thread that does not reach its next point within a grace period is treated "
-        "as blocked for scheduling only); the exhaustive interleaving check is on the model (MC_AtomicMap)",
+        "the larger scenarios' schedules are a seeded random sample; the small scenarios' schedules are enumerated depth "
+        "first over the controller's decisions (complete where evidence says so; a thread that does not reach its next point within a grace period is treated "
+        "as blocked for scheduling only, so the enabled sets are time dependent: divergences from a replayed prefix are counted); "
+        "the exhaustive interleaving check of the design is on the model (MC_AtomicMap)",
     ]
 
 
